@@ -1,7 +1,7 @@
 (* Properties/C05.v — In-VM transaction introspection returns the executed transaction's data.
    Only statements, each closed by `exact` of a lemma proved in Gtf/GtfProofs.v. *)
 From FV Require Import Base.Bytes Base.U64 Codec.CodecModel Gen.Schemas Gen.GtfTable TxId.IdSpec
-     Offsets.OffsetSpec Offsets.OffsetModel Gtf.GtfSpec Gtf.GtfModel Gtf.GtfProofs.
+     Offsets.OffsetSpec Offsets.OffsetModel Gtf.GtfSpec Gtf.GtfModel Gtf.GtfProofs Gtf.GtfAgree.
 Local Open Scope list_scope.
 Open Scope N_scope.
 
@@ -92,15 +92,114 @@ Theorem C05_element_pointers :
 Proof. exact element_pointers. Qed.
 Print Assumptions C05_element_pointers.
 
+(* ---- agreement of the 82-arm model with the decision table gtf_spec.  [denote st row] is what a row
+   of the table denotes on the transaction in memory: the integer whose canonical bytes the C04
+   specification locates (SpValue), tx_offset + the located position (SpPointer), a policy / the
+   policy bits / a constant / the transaction length, or the specified panic.  [agrees st b a] :=
+   denote st (gtf_spec kind tx b a) = Some (gtf_eval st b a). *)
+
+(* Type and the seven policy selectors: unconditionally *)
+Theorem C05_agree_config :
+  forall (st : vmst) (b : N) (a : gtf_arg), In a config_selectors -> agrees st b a.
+Proof. exact agree_config. Qed.
+Print Assumptions C05_agree_config.
+
+(* the 17 selectors of a particular kind, on a transaction of another kind: InvalidMetadataIdentifier
+   in the table and in the model *)
+Theorem C05_agree_other_kind :
+  forall (st : vmst) (b : N) (a : gtf_arg) (want : kind),
+    selector_kind a = Some want -> o_kind (v_tx st) <> want ->
+    gtf_spec (o_kind (v_tx st)) (o_val (v_tx st)) b a = SpPanic P_InvalidMetadataIdentifier /\
+    gtf_eval st b a = GPanic P_InvalidMetadataIdentifier /\ agrees st b a.
+Proof. exact agree_other_kind. Qed.
+Print Assumptions C05_agree_other_kind.
+
+(* the nine inputs / outputs / witnesses count selectors *)
+Theorem C05_agree_counts :
+  forall (st : vmst) (b : N) (a : gtf_arg),
+    In a count_selectors -> o_kind (v_tx st) <> KMint ->
+    typed (kind_ty (o_kind (v_tx st))) (o_val (v_tx st)) = true ->
+    lenN (tx_inputs (v_tx st)) < U64 -> lenN (tx_outputs (v_tx st)) < U64 -> lenN (tx_witnesses (v_tx st)) < U64 ->
+    agrees st b a.
+Proof. exact agree_counts. Qed.
+Print Assumptions C05_agree_counts.
+
+(* TxLength, given that the word below the transaction is the length of its encoding - which is what
+   init_inner stores for a typed transaction shorter than 2^64 bytes *)
+Theorem C05_agree_tx_length :
+  forall (st : vmst) (b : N),
+    v_tx_size st = lenN (enc (kind_ty (o_kind (v_tx st))) (o_val (v_tx st))) -> agrees st b GTF_TxLength.
+Proof. exact agree_tx_length. Qed.
+Print Assumptions C05_agree_tx_length.
+Theorem C05_init_stores_length :
+  forall (par : gparams) (ctx : gctx) (k : kind) (v : val) (meta : option (cmeta * option N)) (st : vmst),
+    init_vm par ctx k v meta = Some st ->
+    typed (kind_ty k) (prepare_tx k v) = true -> lenN (enc (kind_ty k) (prepare_tx k v)) <= u64_max ->
+    v_tx_size st = lenN (enc (kind_ty (o_kind (v_tx st))) (o_val (v_tx st))).
+Proof. exact init_vm_size. Qed.
+Print Assumptions C05_init_stores_length.
+
+(* the scalar fields of the body: script gas limit / script length / script data length; create
+   bytecode witness index / storage slots count; upload witness index / subsection index /
+   subsections count / proof set count; blob witness index *)
+Theorem C05_agree_script_scalars :
+  forall (st : vmst) (b : N) (a : gtf_arg),
+    In a [GTF_ScriptGasLimit; GTF_ScriptLength; GTF_ScriptDataLength] -> o_kind (v_tx st) = KScript ->
+    typed S_Script (o_val (v_tx st)) = true -> lengths_small (v_tx st) -> agrees st b a.
+Proof. exact agree_script_scalars. Qed.
+Print Assumptions C05_agree_script_scalars.
+Theorem C05_agree_gas_limit_other :
+  forall (st : vmst) (b : N), o_kind (v_tx st) <> KScript -> agrees st b GTF_ScriptGasLimit.
+Proof. exact agree_gas_limit_other. Qed.
+Print Assumptions C05_agree_gas_limit_other.
+Theorem C05_agree_create_scalars :
+  forall (st : vmst) (b : N) (a : gtf_arg),
+    In a [GTF_CreateBytecodeWitnessIndex; GTF_CreateStorageSlotsCount] -> o_kind (v_tx st) = KCreate ->
+    typed S_Create (o_val (v_tx st)) = true -> lengths_small (v_tx st) -> agrees st b a.
+Proof. exact agree_create_scalars. Qed.
+Print Assumptions C05_agree_create_scalars.
+Theorem C05_agree_upload_scalars :
+  forall (st : vmst) (b : N) (a : gtf_arg),
+    In a [GTF_UploadWitnessIndex; GTF_UploadSubsectionIndex; GTF_UploadSubsectionsCount; GTF_UploadProofSetCount] ->
+    o_kind (v_tx st) = KUpload -> typed S_Upload (o_val (v_tx st)) = true -> lengths_small (v_tx st) -> agrees st b a.
+Proof. exact agree_upload_scalars. Qed.
+Print Assumptions C05_agree_upload_scalars.
+Theorem C05_agree_blob_scalars :
+  forall (st : vmst) (b : N),
+    o_kind (v_tx st) = KBlob -> typed S_Blob (o_val (v_tx st)) = true -> agrees st b GTF_BlobWitnessIndex.
+Proof. exact agree_blob_scalars. Qed.
+Print Assumptions C05_agree_blob_scalars.
+
+(* pointers to static body fields: salt, upload root, blob id, upgrade purpose (with C05_pointer: the
+   memory there holds the field's canonical bytes) *)
+Theorem C05_agree_static_pointers :
+  forall (st : vmst) (b : N) (a : gtf_arg),
+    In a [GTF_CreateSalt; GTF_UploadRoot; GTF_BlobId; GTF_UpgradePurpose] -> selector_kind a = Some (o_kind (v_tx st)) ->
+    typed (kind_ty (o_kind (v_tx st))) (o_val (v_tx st)) = true -> p_tx_offset (v_params st) <= 4294967296 ->
+    agrees st b a.
+Proof. exact agree_static_pointers. Qed.
+Print Assumptions C05_agree_static_pointers.
+
 (* OPEN (not proved; executed on every observation of every correspondence case by Run/Gtf.v
-   spec_holds / gm_spec_holds, on the REAL VM memory): for $rB < 2^32 the model's answer is what
-   the decision table gtf_spec denotes — the integer whose canonical bytes the C04 specification
-   locates, tx_offset + the located position, or the specified panic. *)
+   spec_holds, on the REAL VM memory): agreement for the selectors in [open_selectors] when the
+   index is in range - the in-range rows of the input / output / witness field selectors (values
+   and pointers), the script / script data pointers, storage slot / proof entry pointers and
+   InputContractOutputIndex.  (Their out-of-range rows are C05_absent_index; their other-kind rows
+   C05_agree_other_kind; the nine element pointers are C05_element_pointers.) *)
+Definition open_selectors : list gtf_arg :=
+  [GTF_Script; GTF_ScriptData; GTF_CreateStorageSlotAtIndex; GTF_UploadProofSetAtIndex;
+   GTF_InputType; GTF_InputCoinTxId; GTF_InputCoinOutputIndex; GTF_InputCoinOwner; GTF_InputCoinAmount;
+   GTF_InputCoinAssetId; GTF_InputCoinTxPointer; GTF_InputCoinWitnessIndex; GTF_InputCoinPredicateLength;
+   GTF_InputCoinPredicateDataLength; GTF_InputCoinPredicate; GTF_InputCoinPredicateData; GTF_InputCoinPredicateGasUsed;
+   GTF_InputContractTxId; GTF_InputContractOutputIndex; GTF_InputContractId; GTF_InputMessageSender;
+   GTF_InputMessageRecipient; GTF_InputMessageAmount; GTF_InputMessageNonce; GTF_InputMessageWitnessIndex;
+   GTF_InputMessageDataLength; GTF_InputMessagePredicateLength; GTF_InputMessagePredicateDataLength;
+   GTF_InputMessageData; GTF_InputMessagePredicate; GTF_InputMessagePredicateData; GTF_InputMessagePredicateGasUsed;
+   GTF_OutputType; GTF_OutputCoinTo; GTF_OutputCoinAmount; GTF_OutputCoinAssetId; GTF_OutputContractInputIndex;
+   GTF_OutputContractCreatedContractId; GTF_OutputContractCreatedStateRoot; GTF_WitnessDataLength; GTF_WitnessData].
 Definition C05_gtf_spec_statement : Prop :=
-  forall (st : vmst) (a : gtf_arg) (b : N) (s : sel) (o : N) (bs : bytes),
+  forall (st : vmst) (a : gtf_arg) (b : N),
+    In a open_selectors ->
     typed (prepared_ty st) (prepared_val st) = true -> b < 4294967296 ->
-    locate_in (prepared_ty st) (prepared_val st) s = Some (o, bs) ->
-    (gtf_spec (o_kind (v_tx st)) (prepared_val st) b a = SpValue s -> gtf_eval st b a = GOk (be_decode bs)) /\
-    (gtf_spec (o_kind (v_tx st)) (prepared_val st) b a = SpPointer s ->
-       gtf_eval st b a = GOk (p_tx_offset (v_params st) + o)) /\
-    (forall r, gtf_spec (o_kind (v_tx st)) (prepared_val st) b a = SpPanic r -> gtf_eval st b a = GPanic r).
+    p_tx_offset (v_params st) + lenN (enc (prepared_ty st) (prepared_val st)) <= u64_max ->
+    a <> GTF_InputContractOutputIndex -> agrees st b a.
